@@ -312,13 +312,36 @@ func runC07(w *World, r *Report, tier string) {
 		}
 	}
 
-	// R5: cleanup identity in the context watcher
+	// R5: cleanup identity — every removal other than route's claim (the context watcher, the roll-back of a request
+	// that could not be written) removes the entry only if it is still the one it registered
 	nWatch := 0
+	rootOfAccess := func(v ssa.Value) ssa.Value {
+		for i := 0; i < 8; i++ {
+			switch x := v.(type) {
+			case *ssa.UnOp:
+				if x.Op != token.MUL {
+					return v
+				}
+				v = x.X
+			case *ssa.FieldAddr:
+				v = x.X
+			case *ssa.Field:
+				v = x.X
+			case *ssa.Extract:
+				if l, ok := x.Tuple.(*ssa.Lookup); ok {
+					return l
+				}
+				return v
+			default:
+				return v
+			}
+		}
+		return v
+	}
 	for _, a := range accs {
-		if a.kind != "delete" || a.fn.Parent() == nil {
+		if a.kind != "delete" || w.ownedOnlyBy(a.fn, routeKey) {
 			continue
 		}
-		// a delete inside a closure (the watcher goroutine)
 		nWatch++
 		cons := w.funcKey(a.fn) + "#delete"
 		guard := edgesAsserting(a.fn, func(c ssa.Value, truth bool) bool {
@@ -327,30 +350,23 @@ func runC07(w *World, r *Report, tier string) {
 				return false
 			}
 			isLk := func(v ssa.Value) bool {
-				if l, ok := v.(*ssa.Lookup); ok && isMapLoadVal(l.X) {
+				l, ok := rootOfAccess(v).(*ssa.Lookup)
+				return ok && isMapLoadVal(l.X)
+			}
+			isOwn := func(v ssa.Value) bool {
+				switch rootOfAccess(v).(type) {
+				case *ssa.FreeVar, *ssa.Parameter:
 					return true
-				}
-				if ex, ok := v.(*ssa.Extract); ok {
-					if l, ok := ex.Tuple.(*ssa.Lookup); ok && isMapLoadVal(l.X) {
-						return true
-					}
 				}
 				return false
 			}
-			isRoute := func(v ssa.Value) bool {
-				_, isFV := v.(*ssa.FreeVar)
-				if u, ok := v.(*ssa.UnOp); ok && u.Op == token.MUL {
-					_, isFV = u.X.(*ssa.FreeVar)
-				}
-				return isFV
-			}
-			if !((isLk(bo.X) && isRoute(bo.Y)) || (isLk(bo.Y) && isRoute(bo.X))) {
+			if !((isLk(bo.X) && isOwn(bo.Y)) || (isLk(bo.Y) && isOwn(bo.X))) {
 				return false
 			}
 			return (bo.Op == token.EQL) == truth
 		})
 		ok := len(guard) > 0 && !reachable(entryLoc(a.fn), func(in ssa.Instruction) bool { return in == a.in }, nil, guard)
-		r.Check(ok, "R5", cons, w.ipos(a.in), "when a request's context ends its watcher deletes whatever entry is registered under that id — also the entry of a newer request that reuses the id, whose response is then routed to the ordinary handlers and never delivered (history: SendIQ(id=x) answered; SendIQ(id=x) again; first context expires; second response arrives)", "delete guarded by IQResultRoutes[id] == route")
+		r.Check(ok, "R5", cons, w.ipos(a.in), "when a request's context ends its watcher deletes whatever entry is registered under that id — also the entry of a newer request that reuses the id, whose response is then routed to the ordinary handlers and never delivered (history: SendIQ(id=x) answered; SendIQ(id=x) again; first context expires; second response arrives)", "delete guarded by IQResultRoutes[id] == the caller's own route")
 	}
 	if nWatch == 0 {
 		r.Undecided("R5", "watcher#delete", "-", "no cleanup goroutine found")
